@@ -332,6 +332,19 @@ def tail_jump_programs(rng):
     return out
 
 
+def auipc_programs(rng):
+    """`auipc` is the one I-type whose result depends on where the instruction stands: whatever the
+    operand, nothing constant may be claimed for its destination (or folded onward into an ecall
+    number, an address, a stack offset)."""
+    out = []
+    for imm in (0, 1, 0x12345, 0xfffff, -1):
+        out.append(f"main:\n    auipc t0, {imm}\n    addi a7, t0, 10\n    mv t1, a7\n    ecall\n    li a0, 1\n    li a7, 1\n    ecall\n"
+                   "    li a7, 10\n    ecall\n")
+        out.append(f"main:\n    nop\n    nop\n    auipc t2, {imm}\n    addi t2, t2, 12\n    sw t2, -4(sp)\n    lw t3, -4(sp)\n    mv a0, t3\n"
+                   "    li a7, 1\n    ecall\n    li a7, 10\n    ecall\n")
+    return out
+
+
 def exit_then_loop_programs(rng):
     """A loop written right behind an exit ecall: until the edge out of the exit is cut, the loop head
     sees the exit's a7 as well, so the service number of an ecall inside the loop (set before the
@@ -467,7 +480,7 @@ def dead_chain_programs(rng):
 
 
 def gen_programs(rng, n, sloppy_choices=(0, 0.1, 0.3), multi=0.15):
-    out = list(CORPUS) + branch_matrix() + ecall_matrix() + arith_matrix(rng) + alloca_programs(rng) + handler_layouts(rng) + early_out_programs(rng) + entry_by_jump_programs(rng) + [long_chain_program(rng), slow_convergence_program(rng), slow_convergence_program(rng)] + label_then_directive_programs(rng) + exit_in_function_programs(rng) + dead_chain_programs(rng) + alias_base_programs(rng) + exit_then_loop_programs(rng) + tail_jump_programs(rng)
+    out = list(CORPUS) + branch_matrix() + ecall_matrix() + arith_matrix(rng) + alloca_programs(rng) + handler_layouts(rng) + early_out_programs(rng) + entry_by_jump_programs(rng) + [long_chain_program(rng), slow_convergence_program(rng), slow_convergence_program(rng)] + label_then_directive_programs(rng) + exit_in_function_programs(rng) + dead_chain_programs(rng) + alias_base_programs(rng) + exit_then_loop_programs(rng) + tail_jump_programs(rng) + auipc_programs(rng)
     for _ in range(max(4, n // 10)):
         out.append(handler_program(rng))
         out.append(backward_layout(rng))
